@@ -75,7 +75,8 @@ func runC09(rt *rapid.T, st *stats.Collector) {
 		k := gen.ByName["String|X|String"]
 		cols[0] = inputCol{name: "c0", kind: k, col: k.New()}
 		x := rapid.Uint64().Draw(rt, "huge-seed") | 1
-		hugeVal = make([]byte, 1<<20+rapid.IntRange(1, 300_000).Draw(rt, "huge-extra"))
+		// sizes around the buffer sizes and thresholds of the write path (4 KiB .. 1 MiB and more)
+		hugeVal = make([]byte, rapid.SampledFrom([]int{1 << 20, 1 << 20, 1 << 20, 4 << 10, 16 << 10, 64 << 10, 128 << 10, 512 << 10}).Draw(rt, "huge-size")+rapid.IntRange(-40, 300_000).Draw(rt, "huge-extra"))
 		for i := range hugeVal {
 			x ^= x << 13
 			x ^= x >> 7
@@ -331,7 +332,7 @@ func runC09(rt *rapid.T, st *stats.Collector) {
 		return map[string]any{"kind": "insert-history", "history": describe()}
 	})
 	if huge {
-		st.Label("block-over-1MiB")
+		st.Label("large-block")
 	}
 	st.Label("earlier-exchange:" + e.warm)
 	if zc {
